@@ -124,8 +124,10 @@ def main(argv=None):
         rep = json.load(open(a.replay))
         return prop.replay(ctx, rep) if hasattr(prop, "replay") else generic_replay(rep)
 
-    # (a) proof obligations
+    # (a) proof obligations (a property may first regenerate model parts from the source: translator)
     lean_info = {"discharged": 0, "axioms": {}, "problems": []}
+    if hasattr(prop, "prepare"):
+        prop.prepare(ctx)
     if not a.skip_lean:
         ok, out, secs = build.lake_build([prop.MODULE, "driver"])
         lean_info["build_s"] = round(secs, 1)
